@@ -219,7 +219,7 @@ def oracle_all(geom, ph, line, tag, amr):
     why = oracle1(geom, ph, line, tag, amr)
     if why is None:
         return []
-    if why[0] in ("hang", "no_answer"):
+    if why[0] in ("hang", "no_answer", "finite"):
         return [why]
     delta = TOL * geom.scale / 4
     near = []
@@ -402,6 +402,8 @@ def oracle1(geom, ph, line, tag, amr):
     r = parse_answer(line or "", tag)
     if r is None:
         return ("no_answer", "no answer from the real code: %r" % (line or "")[:80])
+    if not all(math.isfinite(x) for x in list(r["pos"]) + list(r["J"].values())):
+        return ("finite", "the traversal returns non-finite numbers: final position %r, %d non-finite path lengths credited" % (r["pos"], sum(1 for x in r["J"].values() if not math.isfinite(x))))
     target = Fr(ph["tau"])
     ttol = Fr(1e-11 * max(1.0, ph["tau"])) if ph["tau"] < 1e290 else Fr(0)
     segs, fin = ray_segments(geom, ph, ttol)
